@@ -38,8 +38,8 @@ def _norm_params():
         for wf in [None, "all"] + list(range(N)):
             for sort in (False, True):
                 out.append(dict(sr, wf=wf, sort=sort, normtype=2))
-    out += [dict(shape=(2, 2), R=1, wf=None, sort=False, normtype=1), dict(shape=(2, 2), R=1, wf=1, sort=True, normtype=1),
-            dict(shape=(2, 2), R=2, wf=None, sort=True, normtype=1, _tier="thorough")]
+    # (1-norm with R = 2: the sign forks of 8 entries exhaust a 900 s budget -- not registered)
+    out += [dict(shape=(2, 2), R=1, wf=None, sort=False, normtype=1), dict(shape=(2, 2), R=1, wf=1, sort=True, normtype=1)]
     return out
 
 
